@@ -6,13 +6,18 @@
              fsck/primfeat -> EnvPrimary ; FsckRepair, fsck/primgd -> EnvPrimary ; FsckFromBackup,
              fsck/freecnt -> (data corruption) ; FsckRepair, fsck/stalebk -> (first backup stale) ; FsckRepair)
    A universe element is (geometry, sequence of <= 3 ops of that geometry, every prescribed backup location of the
-   final image [+ plain e2fsck when bpg = 8 * bs]).  checks/c20.py runs all singles and a seeded sample of pairs and
-   triples (sizes in the evidence file).                                                                             *)
-EXTENDS Naturals, Sequences, FiniteSets, Json, IOUtils, SequencesExt
+   final image [+ plain e2fsck when the group size is the default one, field `plain`]).  checks/c20.py runs all singles
+   and a seeded sample of pairs and triples (sizes in the evidence file).
+   Block sizes: the feature / group-count lattice is explored with 1k blocks (small groups keep many-group images tiny);
+   the recovery clauses (e2fsck -b, plain e2fsck = get_backup_sb's loop over block sizes and its group-size guess, the
+   fall-back after damaged descriptors) range over EVERY block size of the format (BackupSearch!BlockSizes) with the
+   default group size, 2 and 4 groups (sparse image files).  `bsizes` / `bboundary` repeat the spec's block-size set and
+   its boundary catalogue so that the check can make sure its fixed quick part covers every one of them.            *)
+EXTENDS Naturals, Sequences, FiniteSets, Json, IOUtils, SequencesExt, BackupSearch
 VARIABLE x
 Profiles == {"sparse", "none", "ss2_0", "ss2_1", "ss2_2", "metabg", "metabg64", "flex", "ss2_2_metabg"}
 Counts == {1, 2, 3, 4, 8, 10, 26, 28, 34, 50}
-G(bs, bpg, n, p) == [bs |-> bs, bpg |-> bpg, groups |-> n, prof |-> p]
+G(bs, bpg, n, p) == [bs |-> bs, bpg |-> bpg, groups |-> n, prof |-> p, plain |-> bpg = DefaultBpg(bs)]
 Geoms == {G(1024, 256, n, p) : n \in Counts, p \in Profiles}
          \cup {G(4096, 256, n, p) : n \in {2, 10, 28}, p \in {"sparse", "ss2_2", "metabg64", "flex"}}        \* first_data_block = 0
          \cup {G(2048, 512, n, p) : n \in {3, 9}, p \in {"sparse", "none", "metabg"}}
@@ -20,16 +25,19 @@ Geoms == {G(1024, 256, n, p) : n \in Counts, p \in Profiles}
          \cup {G(4096, 32768, 2, p) : p \in {"sparse", "flex"}} \cup {G(2048, 16384, 3, "sparse")}              \* default group size, first_data_block = 0
          \cup {G(1024, 1024, n, p) : n \in {4, 10, 28}, p \in {"rsv"}}                                       \* resize_inode + flex_bg
          \cup {G(1024, 256, 82, p) : p \in {"sparse", "metabg64", "ss2_2"}}
+         \cup {G(bs, DefaultBpg(bs), n, p) : bs \in BlockSizes, n \in {2, 4}, p \in {"sparse", "flex", "ss2_2", "metabg64"}}   \* every block size, default group size
 ResizeTargets(g) == ({1, 2, 3, 4, 8, 10, 26, 28, 34, 50} \cup {g.groups - 1, g.groups + 1, g.groups + 7}) \ {0, g.groups}
 Op(k, n, a) == [k |-> k, n |-> n, a |-> a]
 Ops(g) == {Op("resize", t, "") : t \in {t \in ResizeTargets(g) : g.bpg < 8192 \/ t <= 5}}
           \cup {Op("resize64", 0, "")}
-          \cup {Op("tunefeat", 0, f) : f \in {"journal", "csum", "dirindex"} \cup (IF g.prof = "none" THEN {"sparse"} ELSE {})}
+          \* (a journal has >= 1024 blocks: 8 ... 64 MiB of real writes with 8k ... 64k blocks: not in this universe)
+          \cup {Op("tunefeat", 0, f) : f \in (IF g.bs <= 4096 THEN {"journal"} ELSE {}) \cup {"csum", "dirindex"} \cup (IF g.prof = "none" THEN {"sparse"} ELSE {})}
           \cup {Op("uuid", 0, u) : u \in {"A", "B"}}
           \cup (IF g.prof = "none" THEN {Op("isize", 256, "")} ELSE {})
           \cup {Op("fsck", 0, r) : r \in {"primfeat", "primgd", "freecnt", "stalebk"}}
 GeomSeq == SetToSeq(Geoms)
-Univ == [geoms |-> GeomSeq, ops |-> [i \in 1..Len(GeomSeq) |-> SetToSeq(Ops(GeomSeq[i]))]]
+Univ == [geoms |-> GeomSeq, ops |-> [i \in 1..Len(GeomSeq) |-> SetToSeq(Ops(GeomSeq[i]))],
+         bsizes |-> SetToSeq(BlockSizes), bboundary |-> SetToSeq(BoundaryBlockSizes)]
 ASSUME JsonSerialize(IOEnv.OUT, Univ)
 Init == x = 0
 Next == x' = x
